@@ -18,6 +18,7 @@ import (
 	"os"
 	"os/signal"
 	"path/filepath"
+	"reflect"
 	"sort"
 	"strings"
 	"sync"
@@ -74,6 +75,7 @@ type Resp struct {
 	Aggs    []harness.AggOut  `json:"aggs,omitempty"`
 	Done    bool              `json:"done,omitempty"`
 	Found   bool              `json:"found,omitempty"`
+	Failed  string            `json:"failed,omitempty"` // fetchasync: the search ended with this error
 }
 
 type FracInfo struct {
@@ -220,6 +222,12 @@ func main() {
 			fr, ok := as.FetchSearchResult(fracmanager.FetchSearchResultRequest{ID: c.ID})
 			if !ok {
 				reply(Resp{OK: true, Found: false})
+				continue
+			}
+			// a store that can fail a search says so in a field named Error (reflection keeps
+			// this harness building against trees without it)
+			if f := reflect.ValueOf(fr).FieldByName("Error"); f.IsValid() && f.Kind() == reflect.String && f.String() != "" {
+				reply(Resp{OK: true, Found: true, Done: fr.Done, Failed: f.String()})
 				continue
 			}
 			q := fr.QPR
